@@ -217,6 +217,24 @@ CHECKS["C10"] = {
     "assumptions": ["toolchain go1.26.8 (newer than the repository's 1.23.5) is used to get testing/synctest"],
 }
 
+CHECKS["C08"] = {
+    "title": "DKIM signatures made by maddy verify at the next hop after spooling and SMTP",
+    "go": GO,
+    "units": [
+        {"name": "queue", "pkg": "internal/target/queue", "run": "^TestVerifC08",
+         "overlay": {"verif_c08_test.go": "harness/C08/dkim_test.go"}, "overlay_abs": VERIFX},
+    ],
+    "quick": {"n": 1600, "shards": 16},
+    "thorough": {"n": 64000, "shards": 16},
+    "level_text": "randomised search (rapid) over RFC 5322 messages x key type x canonicalisations x EAI/IDN sender, run through the real modify.dkim, the real queue spool "
+                  "(with a close/re-open cycle so the header is re-read from disk), the real target.smtp client and a loopback SMTP server; the received bytes are verified "
+                  "against the key the signer published, raw and after maddy's header parse/serialise cycle, then tampered with (remove / alter a signed field, add an over-signed one).",
+    "level_note": "signer and verifier share go-msgauth; no independent canonicaliser in the oracle",
+    "technique": "property-based testing (rapid): round-trip through sign -> spool -> SMTP -> verify, metamorphic tampering relation",
+    "assumptions": [],
+    "min_nontrivial": 50,
+}
+
 CHECKS["C02"] = {
     "title": "spool survives a crash at any instant",
     "go": GO126,
